@@ -3,6 +3,8 @@ package rules
 import (
 	"fmt"
 	"go/ast"
+	"go/importer"
+	"go/parser"
 	"go/token"
 	"go/types"
 	"strings"
@@ -15,111 +17,84 @@ import (
 // are not. Swapping, sorting, overwriting or filtering such a slice in place (x[:0] + append) changes what the caller,
 // and every other holder of the same array, sees afterwards: the include stack that all directives of a file share,
 // the rule list of a schema that the other serialiser reads, the catalog between two serialisations.
-func (c *Ctx) ruleBorrowedSliceReadOnly(rule string) {
-	r := c.R
-	r.Rule(rule, "no function of the library writes through a slice it was lent: a slice-typed parameter, a slice field reached from a value receiver or from a struct parameter passed by value, or a local that aliases one of those (x := p, x := p[a:b]) is never the target of an element store (x[i] = ..., swaps), of copy(x, ..), of a sort, nor re-sliced to a prefix and appended to (append(x[:k], ..): the in-place filter). Writing into a slice the function has made itself (make, literal, append to nil, a copy) is free; so is a method with a pointer receiver changing its own fields", 1)
-	n, sites := 0, 0
-	for _, f := range c.libFns() {
-		pk := f.Pkg
-		if strings.HasSuffix(pk.Fset.Position(f.Decl.Pos()).Filename, "_gen.go") {
-			continue
+type borrowedFinding struct {
+	key, what string
+	pos       token.Pos
+}
+
+// borrowedFindings: the writes through a lent slice in one function.
+func borrowedFindings(info *types.Info, fd *ast.FuncDecl) (out []borrowedFinding) {
+	borrowed := map[types.Object]string{} // object -> why
+	isSlice := func(t types.Type) bool {
+		if t == nil {
+			return false
 		}
-		sites++
-		borrowed := map[types.Object]string{} // object -> why
-		isSlice := func(t types.Type) bool {
-			if t == nil {
-				return false
-			}
-			_, ok := t.Underlying().(*types.Slice)
-			return ok
+		_, ok := t.Underlying().(*types.Slice)
+		return ok
+	}
+	valueStruct := map[types.Object]bool{}
+	addParam := func(fl *ast.FieldList, recv bool) {
+		if fl == nil {
+			return
 		}
-		valueStruct := map[types.Object]bool{}
-		addParam := func(fl *ast.FieldList, recv bool) {
-			if fl == nil {
-				return
-			}
-			for _, fld := range fl.List {
-				for _, nm := range fld.Names {
-					obj := pk.TypesInfo.Defs[nm]
-					if obj == nil {
-						continue
-					}
-					t := obj.Type()
-					if isSlice(t) {
-						borrowed[obj] = "the parameter " + nm.Name
-					}
-					if _, isStruct := t.Underlying().(*types.Struct); isStruct {
-						if _, isPtr := t.(*types.Pointer); !isPtr {
-							valueStruct[obj] = true
-						}
+		for _, fld := range fl.List {
+			for _, nm := range fld.Names {
+				obj := info.Defs[nm]
+				if obj == nil {
+					continue
+				}
+				t := obj.Type()
+				if isSlice(t) {
+					borrowed[obj] = "the parameter " + nm.Name
+				}
+				if _, isStruct := t.Underlying().(*types.Struct); isStruct {
+					if _, isPtr := t.(*types.Pointer); !isPtr {
+						valueStruct[obj] = true
 					}
 				}
 			}
 		}
-		addParam(f.Decl.Type.Params, false)
-		addParam(f.Decl.Recv, true)
-		// is e (a slice expression) borrowed? returns why
-		var why func(e ast.Expr, depth int) string
-		why = func(e ast.Expr, depth int) string {
-			if depth > 4 {
-				return ""
-			}
-			switch x := ast.Unparen(e).(type) {
-			case *ast.Ident:
-				if w, ok := borrowed[pk.TypesInfo.Uses[x]]; ok {
-					return w
-				}
-			case *ast.SliceExpr:
-				return why(x.X, depth+1)
-			case *ast.SelectorExpr:
-				// a slice field reached from a by-value struct (receiver or parameter) through value fields only
-				if !isSlice(pk.TypesInfo.TypeOf(x)) {
-					return ""
-				}
-				root := x.X
-				for {
-					if s2, ok := ast.Unparen(root).(*ast.SelectorExpr); ok {
-						if _, isPtr := pk.TypesInfo.TypeOf(s2).(*types.Pointer); isPtr {
-							return ""
-						}
-						root = s2.X
-						continue
-					}
-					break
-				}
-				if id, ok := ast.Unparen(root).(*ast.Ident); ok && valueStruct[pk.TypesInfo.Uses[id]] {
-					return "the field " + exprString(x) + " of a struct passed by value"
-				}
-			}
+	}
+	addParam(fd.Type.Params, false)
+	addParam(fd.Recv, true)
+	// is e (a slice expression) borrowed? returns why
+	var why func(e ast.Expr, depth int) string
+	why = func(e ast.Expr, depth int) string {
+		if depth > 4 {
 			return ""
 		}
-		// aliases: x := <borrowed> or x := <borrowed>[a:b]  (to a fixpoint, single definitions only)
-		for round := 0; round < 3; round++ {
-			ast.Inspect(f.Decl.Body, func(nd ast.Node) bool {
-				as, ok := nd.(*ast.AssignStmt)
-				if !ok || len(as.Lhs) != len(as.Rhs) {
-					return true
+		switch x := ast.Unparen(e).(type) {
+		case *ast.Ident:
+			if w, ok := borrowed[info.Uses[x]]; ok {
+				return w
+			}
+		case *ast.SliceExpr:
+			return why(x.X, depth+1)
+		case *ast.SelectorExpr:
+			// a slice field reached from a by-value struct (receiver or parameter) through value fields only
+			if !isSlice(info.TypeOf(x)) {
+				return ""
+			}
+			root := x.X
+			for {
+				if s2, ok := ast.Unparen(root).(*ast.SelectorExpr); ok {
+					if _, isPtr := info.TypeOf(s2).(*types.Pointer); isPtr {
+						return ""
+					}
+					root = s2.X
+					continue
 				}
-				for i, l := range as.Lhs {
-					id, ok := l.(*ast.Ident)
-					if !ok {
-						continue
-					}
-					obj := pk.TypesInfo.ObjectOf(id)
-					if obj == nil || borrowed[obj] != "" || !isSlice(obj.Type()) {
-						continue
-					}
-					if w := why(as.Rhs[i], 0); w != "" {
-						// every other definition of the local must be borrowed too, or the local is mixed: skip mixed
-						borrowed[obj] = w + " (through " + id.Name + ")"
-					}
-				}
-				return true
-			})
+				break
+			}
+			if id, ok := ast.Unparen(root).(*ast.Ident); ok && valueStruct[info.Uses[id]] {
+				return "the field " + exprString(x) + " of a struct passed by value"
+			}
 		}
-		// a local that is also assigned something of the function's own (make, literal, append(nil..)) is not judged
-		own := map[types.Object]bool{}
-		ast.Inspect(f.Decl.Body, func(nd ast.Node) bool {
+		return ""
+	}
+	// aliases: x := <borrowed> or x := <borrowed>[a:b]  (to a fixpoint, single definitions only)
+	for round := 0; round < 3; round++ {
+		ast.Inspect(fd.Body, func(nd ast.Node) bool {
 			as, ok := nd.(*ast.AssignStmt)
 			if !ok || len(as.Lhs) != len(as.Rhs) {
 				return true
@@ -129,93 +104,216 @@ func (c *Ctx) ruleBorrowedSliceReadOnly(rule string) {
 				if !ok {
 					continue
 				}
-				obj := pk.TypesInfo.ObjectOf(id)
-				if obj == nil || borrowed[obj] == "" {
+				obj := info.ObjectOf(id)
+				if obj == nil || borrowed[obj] != "" || !isSlice(obj.Type()) {
 					continue
 				}
-				if _, isParam := pk.TypesInfo.Defs[id]; isParam && as.Tok == token.DEFINE {
-					// the defining assignment of an alias
-				}
-				if why(as.Rhs[i], 0) == "" {
-					// reassigned from something else: x = append(x, ..) keeps it borrowed; make/literal/copy makes it own
-					if call, ok := ast.Unparen(as.Rhs[i]).(*ast.CallExpr); ok && exprString(call.Fun) == "append" && len(call.Args) > 0 && why(call.Args[0], 0) != "" {
-						continue
-					}
-					own[obj] = true
-				}
-			}
-			return true
-		})
-		report := func(key, what string, pos token.Pos) {
-			n++
-			r.Bad(rule, fmt.Sprintf("%s | %s", f.Name(), key), what+": the slice shares its backing array with the value it was taken from, so the change is seen by every holder of that value (and by the next call)", c.pos(pos))
-		}
-		borrowedExpr := func(e ast.Expr) string {
-			if id, ok := ast.Unparen(e).(*ast.Ident); ok && own[pk.TypesInfo.Uses[id]] {
-				return ""
-			}
-			return why(e, 0)
-		}
-		ast.Inspect(f.Decl.Body, func(nd ast.Node) bool {
-			switch x := nd.(type) {
-			case *ast.AssignStmt:
-				for _, l := range x.Lhs {
-					if ix, ok := ast.Unparen(l).(*ast.IndexExpr); ok && isSlice(pk.TypesInfo.TypeOf(ix.X)) {
-						if w := borrowedExpr(ix.X); w != "" {
-							report("store into "+exprString(ix.X), "an element of "+w+" is overwritten", x.Pos())
-						}
-					}
-				}
-			case *ast.IncDecStmt:
-				if ix, ok := ast.Unparen(x.X).(*ast.IndexExpr); ok && isSlice(pk.TypesInfo.TypeOf(ix.X)) {
-					if w := borrowedExpr(ix.X); w != "" {
-						report("store into "+exprString(ix.X), "an element of "+w+" is changed", x.Pos())
-					}
-				}
-			case *ast.CallExpr:
-				name := exprString(x.Fun)
-				cal := callee(pk, x)
-				switch {
-				case name == "append" && len(x.Args) > 0:
-					if se, ok := ast.Unparen(x.Args[0]).(*ast.SliceExpr); ok && se.High != nil {
-						if w := borrowedExpr(se.X); w != "" {
-							report("append to a prefix of "+exprString(se.X), "a prefix of "+w+" is appended to (the in-place filter idiom): the elements behind the prefix are overwritten", x.Pos())
-						}
-					} else if id, ok := ast.Unparen(x.Args[0]).(*ast.Ident); ok {
-						// x := p[:0]; ...; x = append(x, ..)
-						obj := pk.TypesInfo.Uses[id]
-						if w, isB := borrowed[obj]; isB && !own[obj] && strings.Contains(w, "(through ") && c.definedAsPrefix(f, obj) {
-							report("append to "+id.Name, id.Name+" is a prefix of "+w+" and is appended to (the in-place filter idiom): the elements of the original are overwritten", x.Pos())
-						}
-					}
-				case name == "copy" && len(x.Args) == 2:
-					if w := borrowedExpr(x.Args[0]); w != "" {
-						report("copy into "+exprString(x.Args[0]), w+" is the destination of copy", x.Pos())
-					}
-				case cal != nil && cal.Pkg() != nil && (cal.Pkg().Path() == "sort" || cal.Pkg().Path() == "slices") && len(x.Args) > 0 && (strings.HasPrefix(cal.Name(), "Sort") || cal.Name() == "Slice" || cal.Name() == "SliceStable" || cal.Name() == "Strings" || cal.Name() == "Ints" || cal.Name() == "Stable" || cal.Name() == "Reverse"):
-					if w := borrowedExpr(x.Args[0]); w != "" {
-						report("sort of "+exprString(x.Args[0]), w+" is sorted in place", x.Pos())
-					}
+				if w := why(as.Rhs[i], 0); w != "" {
+					// every other definition of the local must be borrowed too, or the local is mixed: skip mixed
+					borrowed[obj] = w + " (through " + id.Name + ")"
 				}
 			}
 			return true
 		})
 	}
-	if n == 0 {
-		r.Ok(rule, "library", fmt.Sprintf("%d functions: none writes through a slice it was lent", sites), "")
-	}
-}
-
-// definedAsPrefix: the local is defined as <something>[:k] (a prefix that keeps the backing array).
-func (c *Ctx) definedAsPrefix(f *Fn, obj types.Object) bool {
-	res := false
-	ast.Inspect(f.Decl.Body, func(nd ast.Node) bool {
+	// a local that is also assigned something of the function's own (make, literal, append(nil..)) is not judged
+	own := map[types.Object]bool{}
+	ast.Inspect(fd.Body, func(nd ast.Node) bool {
 		as, ok := nd.(*ast.AssignStmt)
 		if !ok || len(as.Lhs) != len(as.Rhs) {
 			return true
 		}
 		for i, l := range as.Lhs {
-			if id, ok := l.(*ast.Ident); ok && f.Pkg.TypesInfo.ObjectOf(id) == obj {
+			id, ok := l.(*ast.Ident)
+			if !ok {
+				continue
+			}
+			obj := info.ObjectOf(id)
+			if obj == nil || borrowed[obj] == "" {
+				continue
+			}
+			if _, isParam := info.Defs[id]; isParam && as.Tok == token.DEFINE {
+				// the defining assignment of an alias
+			}
+			if why(as.Rhs[i], 0) == "" {
+				// reassigned from something else: x = append(x, ..) keeps it borrowed; make/literal/copy makes it own
+				if call, ok := ast.Unparen(as.Rhs[i]).(*ast.CallExpr); ok && exprString(call.Fun) == "append" && len(call.Args) > 0 && why(call.Args[0], 0) != "" {
+					continue
+				}
+				own[obj] = true
+			}
+		}
+		return true
+	})
+	report := func(key, what string, pos token.Pos) {
+		out = append(out, borrowedFinding{key, what, pos})
+	}
+	borrowedExpr := func(e ast.Expr) string {
+		if id, ok := ast.Unparen(e).(*ast.Ident); ok && own[info.Uses[id]] {
+			return ""
+		}
+		return why(e, 0)
+	}
+	ast.Inspect(fd.Body, func(nd ast.Node) bool {
+		switch x := nd.(type) {
+		case *ast.AssignStmt:
+			for _, l := range x.Lhs {
+				if ix, ok := ast.Unparen(l).(*ast.IndexExpr); ok && isSlice(info.TypeOf(ix.X)) {
+					if w := borrowedExpr(ix.X); w != "" {
+						report("store into "+exprString(ix.X), "an element of "+w+" is overwritten", x.Pos())
+					}
+				}
+			}
+		case *ast.IncDecStmt:
+			if ix, ok := ast.Unparen(x.X).(*ast.IndexExpr); ok && isSlice(info.TypeOf(ix.X)) {
+				if w := borrowedExpr(ix.X); w != "" {
+					report("store into "+exprString(ix.X), "an element of "+w+" is changed", x.Pos())
+				}
+			}
+		case *ast.CallExpr:
+			name := exprString(x.Fun)
+			cal := calleeInfo(info, x)
+			switch {
+			case name == "append" && len(x.Args) > 0:
+				if se, ok := ast.Unparen(x.Args[0]).(*ast.SliceExpr); ok && se.High != nil {
+					if w := borrowedExpr(se.X); w != "" {
+						report("append to a prefix of "+exprString(se.X), "a prefix of "+w+" is appended to (the in-place filter idiom): the elements behind the prefix are overwritten", x.Pos())
+					}
+				} else if id, ok := ast.Unparen(x.Args[0]).(*ast.Ident); ok {
+					// x := p[:0]; ...; x = append(x, ..)
+					obj := info.Uses[id]
+					if w, isB := borrowed[obj]; isB && !own[obj] && strings.Contains(w, "(through ") && definedAsPrefix(info, fd, obj) {
+						report("append to "+id.Name, id.Name+" is a prefix of "+w+" and is appended to (the in-place filter idiom): the elements of the original are overwritten", x.Pos())
+					}
+				}
+			case name == "copy" && len(x.Args) == 2:
+				if w := borrowedExpr(x.Args[0]); w != "" {
+					report("copy into "+exprString(x.Args[0]), w+" is the destination of copy", x.Pos())
+				}
+			case cal != nil && cal.Pkg() != nil && (cal.Pkg().Path() == "sort" || cal.Pkg().Path() == "slices") && len(x.Args) > 0 && (strings.HasPrefix(cal.Name(), "Sort") || cal.Name() == "Slice" || cal.Name() == "SliceStable" || cal.Name() == "Strings" || cal.Name() == "Ints" || cal.Name() == "Stable" || cal.Name() == "Reverse"):
+				if w := borrowedExpr(x.Args[0]); w != "" {
+					report("sort of "+exprString(x.Args[0]), w+" is sorted in place", x.Pos())
+				}
+			}
+		}
+		return true
+	})
+	return out
+}
+
+func (c *Ctx) ruleBorrowedSliceReadOnly(rule string) {
+	r := c.R
+	r.Rule(rule, "no function of the library writes through a slice it was lent: a slice-typed parameter, a slice field reached from a value receiver or from a struct parameter passed by value, or a local that aliases one of those (x := p, x := p[a:b]) is never the target of an element store (x[i] = ..., swaps), of copy(x, ..), of a sort, nor re-sliced to a prefix and appended to (append(x[:k], ..): the in-place filter). Writing into a slice the function has made itself (make, literal, append to nil, a copy) is free; so is a method with a pointer receiver changing its own fields", 1)
+	if msg := borrowedSelfTest(); msg != "" {
+		r.Undecided(rule, "self-test", msg, "")
+		return
+	}
+	n, sites := 0, 0
+	for _, f := range c.libFns() {
+		pk := f.Pkg
+		if strings.HasSuffix(pk.Fset.Position(f.Decl.Pos()).Filename, "_gen.go") {
+			continue
+		}
+		sites++
+		for _, fd := range borrowedFindings(pk.TypesInfo, f.Decl) {
+			n++
+			r.Bad(rule, fmt.Sprintf("%s | %s", f.Name(), fd.key), fd.what+": the slice shares its backing array with the value it was taken from, so the change is seen by every holder of that value (and by the next call)", c.pos(fd.pos))
+		}
+	}
+	if n == 0 {
+		r.Ok(rule, "library", fmt.Sprintf("%d functions: none writes through a slice it was lent (the matcher finds the four writes of its built-in example and passes the copy-then-sort idiom on every run)", sites), "")
+	}
+}
+
+// borrowedSelfTest: the matcher must find its positive examples and pass the negative ones on every run (the rule
+// expects zero sites in the library).
+func borrowedSelfTest() string {
+	src := `package p
+import "sort"
+type tracer struct{ stack []int }
+func (d tracer) reverse() {
+	frames := d.stack
+	for i, j := 0, len(frames)-1; i < j; i, j = i+1, j-1 {
+		frames[i], frames[j] = frames[j], frames[i]
+	}
+}
+func filter(items []string) []string {
+	uniq := items[:0]
+	for _, n := range items {
+		if n != "" {
+			uniq = append(uniq, n)
+		}
+	}
+	return uniq
+}
+func sorted(xs []string) []string {
+	sort.Strings(xs)
+	return xs
+}
+func okCopy(xs []string) []string {
+	ys := make([]string, len(xs))
+	copy(ys, xs)
+	sort.Strings(ys)
+	ys[0] = "a"
+	return ys
+}
+func (d *tracer) okOwn(v int) {
+	d.stack[0] = v
+}
+`
+	fset := token.NewFileSet()
+	f, err := parser.ParseFile(fset, "selftest.go", src, 0)
+	if err != nil {
+		return "self-test does not parse"
+	}
+	info := &types.Info{Types: map[ast.Expr]types.TypeAndValue{}, Uses: map[*ast.Ident]types.Object{}, Defs: map[*ast.Ident]types.Object{}, Selections: map[*ast.SelectorExpr]*types.Selection{}}
+	conf := types.Config{Importer: importer.Default()}
+	if _, err := conf.Check("p", fset, []*ast.File{f}, info); err != nil {
+		return "self-test does not type-check: " + err.Error()
+	}
+	got := map[string]int{}
+	for _, d := range f.Decls {
+		if fd, ok := d.(*ast.FuncDecl); ok {
+			got[fd.Name.Name] = len(borrowedFindings(info, fd))
+		}
+	}
+	if got["reverse"] < 1 || got["filter"] != 1 || got["sorted"] != 1 || got["okCopy"] != 0 || got["okOwn"] != 0 {
+		return fmt.Sprintf("self-test: reverse=%d (want >=1) filter=%d (want 1) sorted=%d (want 1) okCopy=%d okOwn=%d (want 0)", got["reverse"], got["filter"], got["sorted"], got["okCopy"], got["okOwn"])
+	}
+	return ""
+}
+
+func isNilInfo(info *types.Info, e ast.Expr) bool {
+	id, ok := ast.Unparen(e).(*ast.Ident)
+	if !ok {
+		return false
+	}
+	_, isNil := info.Uses[id].(*types.Nil)
+	return isNil
+}
+
+func calleeInfo(info *types.Info, call *ast.CallExpr) *types.Func {
+	switch fun := ast.Unparen(call.Fun).(type) {
+	case *ast.Ident:
+		f, _ := info.Uses[fun].(*types.Func)
+		return f
+	case *ast.SelectorExpr:
+		f, _ := info.Uses[fun.Sel].(*types.Func)
+		return f
+	}
+	return nil
+}
+
+// definedAsPrefix: the local is defined as <something>[:k] (a prefix that keeps the backing array).
+func definedAsPrefix(info *types.Info, fd *ast.FuncDecl, obj types.Object) bool {
+	res := false
+	ast.Inspect(fd.Body, func(nd ast.Node) bool {
+		as, ok := nd.(*ast.AssignStmt)
+		if !ok || len(as.Lhs) != len(as.Rhs) {
+			return true
+		}
+		for i, l := range as.Lhs {
+			if id, ok := l.(*ast.Ident); ok && info.ObjectOf(id) == obj {
 				if se, ok := ast.Unparen(as.Rhs[i]).(*ast.SliceExpr); ok && se.High != nil {
 					res = true
 				}
